@@ -12,6 +12,9 @@ name, everything else `NonValidation`):
 (e)  `encode(mapping, separator, parentheses)` for generated mappings of 1..5 identifiers drawn from ALL
      registered identifiers (including the formats `_max_length` cannot parse), separators '' / GS / '^' / '~' /
      a two-character one, parentheses on/off, plus ill-typed values, unknown / over-long / empty keys;
+(w)  the witnesses of the negated theorems of Props/C16/Witness.lean (R8, R14, R16–R20) are replayed on the REAL
+     code: each must still show its defect (otherwise the hand model / the theorems are out of date), and the same
+     inputs go through the model like every other request;
 (i)  `info`, `validate`, `is_valid` on: the encodings from (e), hand-built element strings (random order, separator
      after every / no / some variable-length values, padded or not), and malformed strings (mutations: deleted,
      inserted, replaced characters, truncation, non-ASCII digits and spaces, stray parentheses and separators,
@@ -24,7 +27,8 @@ real function during the Python run and passes them to the driver as an oracle.
   python gs1.py --driver /path/to/native/driver     (any command reading request lines on stdin)
 
 The default driver is the interpreter (`lake env lean --run Driver/GS1Main.lean`).
-Prints a JSON summary {"evaluations","agree","disagreements","distribution",...}; exit 1 on any disagreement.
+Prints a JSON summary {"evaluations","agree","disagreements","distribution","witnesses",...}; exit 1 on any
+disagreement or when a witness no longer shows its defect on the real code.
 """
 import argparse
 import datetime
@@ -448,6 +452,74 @@ DECIMAL_TEXTS = [
 ]
 
 
+# ---------------------------------------------------------------- the witnesses of Props/C16/Witness.lean
+
+def _raises(f, cls):
+    try:
+        f()
+    except cls:
+        return True
+    except Exception:  # noqa: B902
+        return False
+    return False
+
+
+def _same(a, b):
+    """equal as mappings of Python values: same keys, same types, same values"""
+    return (isinstance(a, dict) and sorted(a) == sorted(b) and
+            all(type(a[k]) is type(b[k]) and a[k] == b[k] and str(a[k]) == str(b[k]) for k in b))
+
+
+INFO_ENCODE_WITNESSES = [
+    # name, mapping, separator, parentheses, expected observation
+    ('R8', {'4330': '123456'}, '', False, 'info raises AttributeError'),
+    ('R16', {'10': 'A(B)C'}, '', True, "{'10': 'ABC'}"),
+    ('R17', {'310': D('0.000123')}, '', False, "{'310': Decimal('0.00012')}"),
+    ('R18', {'390': D('1.5'), '91': 'x'}, '', False, "{'390': Decimal('115'), '91': 'x'}"),
+    ('R19', {'7007': datetime.date(2020, 1, 1), '91': 'x'}, '', False, 'info raises ValueError'),
+    ('R20', {'7011': datetime.datetime(2020, 1, 1, 0, 0)}, '', False, "{'7011': datetime.date(2020, 1, 1)}"),
+]
+VALIDATE_FIXED_WITNESSES = [
+    # name, x, separator, validated form
+    ('R14', '11', '', '11000101'),
+    ('R17', '3106000123', '', '3105000012'),
+    ('R18', '390100000000000001591x', '', '390000000000000011591x'),
+    ('R19', '7011200101100091x', '', '701120010110  91x'),
+    ('R20', '70112001010000', '', '7011200101'),
+]
+
+
+def check_witnesses():
+    """replay the counter-examples on the real code; returns the list of those that no longer show the defect"""
+    gone = []
+    for name, m, sep, par, _ in INFO_ENCODE_WITNESSES:
+        try:
+            w = gs1_128.encode(m, sep, par)
+            back = gs1_128.info(w, sep)
+            if _same(back, m):
+                gone.append('info_encode_false_' + name)
+        except Exception:  # noqa: B902
+            pass            # raising is a failure of the round trip as well
+    for name, x, sep, v in VALIDATE_FIXED_WITNESSES:
+        try:
+            got = gs1_128.validate(x, sep)
+        except Exception:  # noqa: B902
+            gone.append('validate_fixed_false_%s (validate(x) raises)' % name)
+            continue
+        if got != v:
+            gone.append('validate_fixed_false_%s (validate(x) = %r, the theorem says %r)' % (name, got, v))
+            continue
+        try:
+            fixed = gs1_128.validate(v, sep) == v and _same(gs1_128.info(v, sep), gs1_128.info(x, sep))
+        except Exception:  # noqa: B902
+            fixed = False
+        if fixed:
+            gone.append('validate_fixed_false_' + name)
+    if not (gs1_128.validate('') == '' and gs1_128.is_valid('') is False):
+        gone.append('validate_empty')
+    return gone
+
+
 # ---------------------------------------------------------------- main
 
 class Run:
@@ -555,6 +627,17 @@ def main():
         for sep in ('', '^', '\x1d'):
             check_string('fixed-list', x, sep)
 
+    # (w) the witnesses of the negated theorems
+    witnesses_gone = check_witnesses()
+    for name, m, sep, par, _ in INFO_ENCODE_WITNESSES:
+        exp = add('witness:' + name, 'gs1.encode', [to_wire(m), to_wire(sep), par],
+                  lambda: gs1_128.encode(m, sep, par), {'m': m, 'sep': sep, 'par': par}, oracle=True)
+        if exp[0] == 'ok':
+            check_string('witness:' + name, gs1_128.encode(m, sep, par), sep)
+    for name, x, sep, v in VALIDATE_FIXED_WITNESSES:
+        check_string('witness:' + name, x, sep)
+        check_string('witness:' + name, v, sep)
+
     mappings = []
     for k in keys:                              # every identifier alone
         mappings.append(([(k, gen_value(rnd, table[k], True))], 'admitted'))
@@ -630,12 +713,14 @@ def main():
                                   'detail': {a: short(b, 300) for a, b in detail.items()},
                                   'python': short(exp, 500), 'lean': short(g, 500)})
     summary = {'seed': seed, 'evaluations': evaluations, 'agree': agree, 'disagreements': disagreements[:25],
-               'n_disagreements': len(disagreements), 'distribution': dist}
+               'n_disagreements': len(disagreements), 'distribution': dist,
+               'witnesses': {'checked': len(INFO_ENCODE_WITNESSES) + len(VALIDATE_FIXED_WITNESSES) + 1,
+                             'no_longer_reproduced_on_real_code': witnesses_gone}}
     if proc.returncode != 0 or len(got) != len(run.checks):
         summary['driver_error'] = {'returncode': proc.returncode, 'lines_out': len(got),
                                    'lines_expected': len(run.checks), 'stderr': proc.stderr[-2000:]}
     print(json.dumps(summary))
-    sys.exit(1 if (disagreements or 'driver_error' in summary) else 0)
+    sys.exit(1 if (disagreements or witnesses_gone or 'driver_error' in summary) else 0)
 
 
 if __name__ == '__main__':
